@@ -9,6 +9,7 @@ from engine import pat
 from engine.util import own_nodes, calls_with_nodes, where, with_exprs
 
 RULES = {
+    "R-08.11": "reservations add up: Renderer.reserve and release_reserved, executed by the checker over small numbers (limit 0..9, two reservations 0..9 each), refuse a reservation exactly when the reservations so far plus this one exceed the original limit, leave max_size = limit - reserved, and release restores the limit - Message.to_wire reserves twice (OPT, then TSIG), so a bound that counts the first reservation twice refuses messages that fit",
     "R-08.10": "signing does not grow the record: dns.tsig.sign derives the signed TSIG from the template only by `.replace(time_signed=..., mac=...)` - the MAC has the reserved size, and no other variable-length field (other data) is added at signing time, after the reserve and the padding were computed",
     "R-08.9": "the size reserved for the TSIG is the size that is written: dns.tsig.mac_sizes agrees with the digest (or truncation) size of every algorithm (C14 R-14.3 adopted) - the placeholder MAC behind the reserve is sized from that table",
     "R-08.8": "the sizes reserved before rendering are those of what is rendered: the placeholder MAC of use_tsig has the size of the algorithm the TSIG template names (one expression for both), and make_response hands the requester's advertised payload (query.payload) to use_edns as request_payload - the default limit of the response",
@@ -287,12 +288,53 @@ def run(model, rep, tier):
               f"`{src(bad10[0])[:70]}` changes {sorted({k.arg for k in bad10[0].keywords} - {'time_signed', 'mac'})} at signing time: the TSIG written is larger than the placeholder the reserve and the padding were "
               "computed from (the padded length is off; TooBig escapes near the limit)" if bad10 else "no `.replace(time_signed=..., mac=...)` found in sign()", stmt="sign-keeps-size")
     rep.share(model, "C14", {"R-14.3"}, "R-08.9", "Message.use_tsig sizes the placeholder MAC with dns.tsig.mac_sizes[algorithm]; _compute_tsig_reserve renders that placeholder")
+    # ---------------------------------------------------------------- R-08.11
+    from engine.minieval import run_block, Raised, Unsupported
+    rsv, rel = model.func("dns.renderer.Renderer.reserve"), model.func("dns.renderer.Renderer.release_reserved")
+    if [a.arg for a in rsv.node.args.args] != ["self", "size"]:
+        rep.blind("R-08.11", rsv.qualname, where(rsv, rsv.node), "reserve(self, size) signature changed", stmt="reserve-arithmetic")
+    else:
+        wrong = None
+        try:
+            for M in range(0, 10):
+                for a in range(0, 10):
+                    for b in range(0, 10):
+                        env = {"self.max_size": M, "self.reserved": 0}
+                        total = 0
+                        for amount in (a, b):
+                            env["size"] = amount
+                            try:
+                                run_block(rsv.node.body, env)
+                                accepted = True
+                            except Raised:
+                                accepted = False
+                            want = total + amount <= M
+                            if accepted != want:
+                                wrong = wrong or f"limit {M}, reserved {total}: reserve({amount}) is {'accepted' if accepted else 'refused'}"
+                            if accepted:
+                                total += amount
+                            if (env["self.max_size"], env["self.reserved"]) != (M - total, total):
+                                wrong = wrong or f"limit {M} after reserving {total}: max_size={env['self.max_size']} reserved={env['self.reserved']}"
+                        run_block(rel.node.body, env)
+                        if (env["self.max_size"], env["self.reserved"]) != (M, 0):
+                            wrong = wrong or f"limit {M} after release: max_size={env['self.max_size']} reserved={env['self.reserved']}"
+            rep.check(wrong is None, "R-08.11", rsv.qualname, where(rsv, rsv.node), "1000 two-step reservation histories evaluated: refusal exactly when the total exceeds the limit; release restores it",
+                      f"reservation arithmetic is wrong, e.g. {wrong}: Message.to_wire reserves the OPT and then the TSIG, so messages whose records fit are refused (ValueError) or the reserve is too small (TooBig after truncation)",
+                      stmt="reserve-arithmetic")
+        except Unsupported as e:
+            rep.blind("R-08.11", rsv.qualname, where(rsv, rsv.node), f"reserve/release_reserved not evaluable: {e}", stmt="reserve-arithmetic")
     rep.meta["explanation"] = (
         "Lexical with-context check for size tracking, dominance rules on _track_size/_rollback and on the ordering of reserve/sections/release/OPT/header/TSIG in Message.to_wire, "
         "def-use completeness of the padding length, and a sibling cross-check of the two TSIG-writing paths. That the truncated prefix parses for every limit value is NOT decided.")
 
 
 WITNESSES = [
+    {"id": "c08-reserve-counts-reserved-twice", "rule": "R-08.11", "file": "dns/renderer.py", "expect": "fires",
+     "old": "        if size > self.max_size:\n            raise ValueError(\"cannot reserve more than the maximum size\")", "new": "        if size > self.max_size - self.reserved:\n            raise ValueError(\"cannot reserve more than the maximum size\")"},
+    {"id": "c08-release-forgets-reserved", "rule": "R-08.11", "file": "dns/renderer.py", "expect": "fires",
+     "old": "        self.max_size += self.reserved\n        self.reserved = 0", "new": "        self.reserved = 0\n        self.max_size += self.reserved"},
+    {"id": "c08-twin-reserve-test-flipped", "rule": "R-08.11", "file": "dns/renderer.py", "expect": "silent",
+     "old": "        if size > self.max_size:\n            raise ValueError(\"cannot reserve more than the maximum size\")", "new": "        remaining = self.max_size - size\n        if remaining < 0:\n            raise ValueError(\"cannot reserve more than the maximum size\")"},
     {"id": "c08-sign-adds-other-data", "rule": "R-08.10", "file": "dns/tsig.py", "expect": "fires",
      "old": "    ctx = _digest(wire, key, rdata, time, request_mac, ctx, multi)\n    mac = ctx.sign()\n    tsig = rdata.replace(time_signed=time, mac=mac)",
      "new": "    if rdata.error == 18 and not rdata.other:\n        rdata = rdata.replace(other=struct.pack(\"!HI\", time >> 32, time & 0xFFFFFFFF))\n    ctx = _digest(wire, key, rdata, time, request_mac, ctx, multi)\n    mac = ctx.sign()\n    tsig = rdata.replace(time_signed=time, mac=mac)"},
